@@ -76,5 +76,5 @@ def main(srcdir, ids, run_suite=True, run_checks=True):
 if __name__ == "__main__":
     src = os.path.abspath(sys.argv[1])
     ids = sys.argv[2:] or sorted(os.listdir(src))
-    r = main(src, ids, run_suite=not os.environ.get("SKIP_SUITE"))
-    json.dump(r, open("/tmp/verify_seeds.json", "w"), indent=1)
+    r = main(src, ids, run_suite=not os.environ.get("SKIP_SUITE"), run_checks=not os.environ.get("SKIP_CHECKS"))
+    json.dump(r, open(os.environ.get("VERIFY_OUT", "/tmp/verify_seeds.json"), "w"), indent=1)
